@@ -558,6 +558,13 @@ class AsyncFIFOBuffered(Elaboratable, FIFOInterface):
             depth = (1 << depth_bits) + 1
         super().__init__(width=width, depth=depth)
 
+        # Like the read-side counters of the inner FIFO, the output register must not be affected by
+        # a reset of the read domain: "when the read domain is reset, data remains in the FIFO". If
+        # `r_rdy` were cleared by that reset, the entry held in the output register would be lost,
+        # and so would one more entry of the inner FIFO on each cycle for which the reset lasts
+        # (an empty output register is refilled unconditionally).
+        self.r_rdy = Signal(reset_less=True)
+
         self.r_rst = Signal()
         self._r_domain = r_domain
         self._w_domain = w_domain
